@@ -12,6 +12,7 @@ ORACLES = dict(
     buffer=solvers.oracle_buffer,
     feasible=solvers.oracle_finite_feasible,
     history=solvers.oracle_history,
+    stop_value=solvers.oracle_stop_value,
     descent=solvers.oracle_descent,
 )
 
@@ -119,10 +120,21 @@ def search_failing(case, rep, oracles, rng):
     """variations of a run on which model and implementation disagreed: longer budgets, looser and tighter
     tolerances, caller-owned buffers; all oracles of the solver-level properties are applied"""
     import copy
+    import numpy as np
+    from ..impl import Dfit
     tried = 0
-    for max_iter in (case.knobs.get("max_iter", 5), 20, 50, 100):
-        for tol in (case.knobs.get("tol", 1e-4), 1e-3, 1e-6):
-            c2 = copy.copy(case)
+    bases = [case]
+    if case.df.kind in ("quadratic", "huber", "wquadratic"):
+        # the same design with a loss whose intercept step is not an exact minimiser
+        c_log = copy.copy(case)
+        c_log.df = Dfit("logistic")
+        med = float(np.median(case.y))
+        c_log.y = np.where(case.y > med, 1.0, -1.0)
+        c_log.sw = np.ones(len(case.y))
+        bases.append(c_log)
+    for base, max_iter in [(b_, m) for b_ in bases for m in (case.knobs.get("max_iter", 5), 20, 50, 100)]:
+        for tol in (case.knobs.get("tol", 1e-4), 1e-1, 1e-2, 1e-3, 1e-6):
+            c2 = copy.copy(base)
             c2.knobs = dict(case.knobs, max_iter=max_iter, tol=tol)
             c2.explicit_buffers = True
             r2 = solvers.run_acd(c2)
@@ -130,8 +142,8 @@ def search_failing(case, rep, oracles, rng):
             if r2["out"] is None:
                 continue
             nv = len(rep.violations)
-            for o in ("cert", "buffer", "feasible", "history", "descent"):
-                if o in oracles or o in ("cert", "buffer", "feasible"):
+            for o in ("cert", "stop_value", "buffer", "feasible", "history", "descent"):
+                if o in oracles or o in ("cert", "stop_value", "buffer", "feasible"):
                     ORACLES[o](c2, r2, rep)
             if len(rep.violations) > nv:
                 rep.extra["search_hits"] = rep.extra.get("search_hits", 0) + 1
